@@ -54,6 +54,7 @@ func c04Base(class string, seed uint64) *vfScenario {
 	sc.Cfg["concr"] = int64(rng.IntN(2))
 	sc.Cfg["concw"] = int64(rng.IntN(2))
 	sc.Cfg["fstat"] = int64(rng.IntN(2))
+	sc.Cfg["errwithdata"] = int64(rng.IntN(2))
 	for t := 0; t < ntasks; t++ {
 		n := 1 + rng.IntN(4)
 		for i := 0; i < n; i++ {
@@ -223,6 +224,7 @@ func c04Exec(r *vfRun) {
 	}
 	base := len(srv.s2c.buf)
 	baseWrites := srv.c2s.writes
+	srv.s2c.errWithData = sc.cfg("errwithdata", 0) != 0
 	// plan the faults (offsets are relative to the end of the setup phase)
 	cutAt, cutKind := -1, 0
 	var cutErr error
@@ -344,7 +346,7 @@ func c04Exec(r *vfRun) {
 		r.fail("C04/writer-not-closed", "close", "Close returned but the client never closed its writer end")
 		return
 	}
-	cutFired := srv.s2c.termErr != nil && cutAt >= 0 && srv.s2c.rdOff >= cutAt && sim.stats["fault.s2c.cut"] > 0
+	cutFired := srv.s2c.termErr != nil && cutAt >= 0 && srv.s2c.rdOff >= cutAt && (sim.stats["fault.s2c.cut"] > 0 || sim.stats["fault.s2c.err-with-data"] > 0)
 	if cutFired && waited {
 		if waitErr == nil {
 			r.fail("C04/wait-no-error", "wait", "Wait returned nil after the link was cut with %v", cutErr)
